@@ -84,10 +84,10 @@ CLAIMED = {
    design='5 C12'),
  'C14': dict(
    text='Coq theorems: remove_uids removes exactly the edges touching removed agents; removing the dead from networks and then from the active list keeps all endpoints active; '
-        'end_pairs semantics and exact lifetimes of timed edges (present after j updates iff d - j*dt > 0); random-network half-edge counts for every permutation; '
+        'end_pairs semantics and exact lifetimes of timed edges (present after j updates iff d - j*dt > 0, over Q; the binary64 count-down is refuted for dt = 0.1 and exact for binary steps, over primitive floats); random-network half-edge counts for every permutation; '
         'uid-keyed pair construction is safe while positional construction is refuted by a witness; the Erdos-Renyi pair numbers (combine_rands on unsigned 64-bit draws, replayed bit-exactly in Coq) lie in [0,1] and a pair is an edge exactly when its 64-bit pattern is at most p(2^64-1), whereas the signed reading accepts half of all patterns (defect repaired in /repo). Edge-list op sequences on a real dynamic network are compared with the '
         'model in Coq; a probe between the network phase and transmission checks every built-in network class under births/deaths/pregnancy at every step.',
-   note='Trusted: Coq kernel, translator (end_pairs expressions + shape pins), harness (Network.append wrapper for pairing-time eligibility). Partnership eligibility / '
+   note='Trusted: Coq kernel incl. its primitive binary64 floats (PrimFloat.float/sub/ltb appear in Print Assumptions of the two count-down theorems), translator (end_pairs expressions + shape pins), harness (Network.append wrapper for pairing-time eligibility). Partnership eligibility / '
         'no-concurrency of MF/MSM/Embedding are checked on the implementation (probe), not proved. Two genuine defects (ErdosRenyiNet, DiskNet positional edges) were repaired by fix: commits.',
    technique='Coq proofs about edge-list maintenance and timed edges + in-Coq differential evaluation + per-step network probe',
    design='5 C14'),
